@@ -111,6 +111,15 @@ type state struct {
 	// universally valid facts (clauses over skolem variables, proved for an arbitrary value): instantiated lazily
 	univ     []*univFact
 	univDone map[string]bool
+	// calls made through contracts by the verified function itself (for `delegates`)
+	dcalls []callRec
+}
+
+type callRec struct {
+	iface  bool
+	target string
+	args   []val
+	ret    val
 }
 
 // univFact is a clause over skolem variables that has been established for arbitrary values of them (a precondition,
@@ -142,6 +151,7 @@ func (s *state) clone() *state {
 		n.ghostCnt[k] = v
 	}
 	n.univ = append([]*univFact(nil), s.univ...)
+	n.dcalls = append([]callRec(nil), s.dcalls...)
 	if len(s.univDone) > 0 {
 		n.univDone = make(map[string]bool, len(s.univDone))
 		for k := range s.univDone {
@@ -247,6 +257,10 @@ type ctx struct {
 	nodeT         *types.Named      // concrete node type under conformance check
 	assumed       map[string]bool   // trusted items actually used
 	depthCap      int
+	closureRef    map[string]string
+	siteArgs      []val          // operands of the call at which site assertions are being evaluated
+	fnVals        map[string]val // reference term of a function value stored in memory -> the function value
+	inheriting    int            // > 0 while a chain of delegating wrappers is executed for a function that delegates to its head
 }
 
 func (x *ctx) fail(format string, a ...any) {
@@ -665,7 +679,28 @@ func (x *ctx) asTerm(v val, t types.Type) term {
 		if v.cb != nil {
 			n = "cb_" + v.cb.spec.Name
 		}
+		if v.fn != nil && len(v.bind) > 0 {
+			// closures with captured variables: one reference per closure value (identified by its binding list)
+			id := fmt.Sprintf("%s@%p", n, &v.bind[0])
+			if x.closureRef == nil {
+				x.closureRef = map[string]string{}
+			}
+			if have, ok := x.closureRef[id]; ok {
+				n = have
+			} else {
+				x.fresh++
+				n = fmt.Sprintf("%s!c%d", n, x.fresh)
+				x.closureRef[id] = n
+			}
+		}
 		x.declare(n, sRef.name)
+		if x.fnVals == nil {
+			x.fnVals = map[string]val{}
+		}
+		if _, have := x.fnVals[n]; !have {
+			x.fnVals[n] = v
+			x.decls = append(x.decls, fmt.Sprintf("(assert (not (= %s (_ bv0 64))))", n))
+		}
 		return term{n, sRef}
 	}
 	if v.ptr != nil {
@@ -1593,6 +1628,7 @@ func (x *ctx) sliceOp(st *state, fr *frame, in *ssa.Slice) val {
 	}
 	// s[lo:hi]: fresh slice whose elements are shifted copies
 	r := x.freshTerm("subslice", sRef)
+	st.define(not(eq(r, null))) // slice headers are abstract references: the result is a new one (also for an empty result)
 	x.assumeFreshRef(st, r)
 	lo := mkbv(0, 64)
 	if in.Low != nil {
